@@ -1,6 +1,6 @@
 (** C19 - Client romaji engine: every table spelling is typeable, conversion is total.
     Tables, consonants and the scan bound come from chokan.el (Gen/ElispTables.v, regenerated every run). *)
-From Chokan Require Import Base.Str Base.ListUtil Gen.ElispTables Kana.Romaji Kana.RomajiProofs Kana.RomajiIdem.
+From Chokan Require Import Base.Str Base.ListUtil Gen.ElispTables Gen.KanaTable Kana.Romaji Kana.RomajiProofs Kana.RomajiIdem.
 
 Definition R2H : str -> option str := r2h el_roman_table el_consonants el_scan_bound.
 Definition KATA : str -> str := hira_to_kata el_katakana_table.
@@ -45,6 +45,18 @@ Proof. exact (r2h_idempotent el_roman_table el_consonants el_scan_bound el_no_em
 Theorem C19_sokuon : forall c rest, mem_chr c el_consonants = true ->
   R2H (c :: c :: rest) = option_map (cons SOKUON) (R2H (c :: rest)).
 Proof. exact (r2h_sokuon el_roman_table el_consonants el_scan_bound el_no_empty_key). Qed.
+
+(** which consonants double: at least every consonant that the repository's own original-spelling conversion (kana-alpha, its doubling
+    list read from libs/kana-alpha into Gen/KanaTable.v on every run) writes doubled for a sokuon - so whatever that conversion spells
+    with a doubled consonant, typed back, starts with っ followed by the remaining consonant *)
+Theorem C19_sokuon_class : forallb (fun c => mem_chr c el_consonants) ka_doubling = true.
+Proof. vm_compute. reflexivity. Qed.
+Theorem C19_sokuon_server_spelling : forall c rest, In c ka_doubling ->
+  R2H (c :: c :: rest) = option_map (cons SOKUON) (R2H (c :: rest)).
+Proof.
+  intros c rest Hin. apply C19_sokuon.
+  exact (proj1 (forallb_forall _ _) C19_sokuon_class c Hin).
+Qed.
 
 (** hiragana-to-katakana: character-wise; maps every table kana, leaves every other character untouched *)
 Theorem C19_kata_app : forall s1 s2, KATA (s1 ++ s2) = KATA s1 ++ KATA s2.
